@@ -775,6 +775,8 @@ def run_case(case, sess):
 
 
 def pair_ok(a, b):
+    if a.solo or b.solo:
+        return False
     if a.kws & b.kws:
         return False
     if a.tail and b.tail:
